@@ -11,7 +11,7 @@ func init() {
 		},
 		Rule:      "a case = (generated design, method, valid result drawn per response location, view chosen by the stub) returned by the stub service behind the generated server and decoded by the generated client. Non-trivial = the result selects a tagged response, or has attributes both in the body and in headers/cookies, or leaves a defaulted attribute unset, or is rendered under a non-default view. Distinct = SHA-256 of method, view and canonical result.",
 		LevelText: "Generated-input search over designs and result values: real goa generators, compiled and executed; the value returned by the generated client is compared with the value returned by the stub under the reference semantics (view projection, declared defaults), the wire status with the response the design selects (tags), and every attribute with its designed location on the tapped response; exactly one WriteHeader. Exploration with rapid shrinking of the failing result.",
-		LevelNote: "Trusts the Go tool chain, net/http, rapid and the verifier's model/oracle and reflection harness. Designs stay in the gen.Response profile; open findings are excluded by construction and probed. Streaming results are not exercised.",
+		LevelNote: "Trusts the Go tool chain, net/http, rapid and the verifier's model/oracle and reflection harness. Designs stay in the gen.Response profile; open findings are excluded by construction and probed. OneOf unions in result bodies are exercised. Streaming results are not exercised.",
 		Technique: "property-based testing (rapid): round trip of generated results through generated server and client, reference response selection and view projection, location oracle on the tapped response",
 		Assumptions: []string{
 			"an empty collection and an unset one are the same Go value; a required primitive outside the rendered view is its zero value (non-pointer field)",
